@@ -30,7 +30,7 @@ import (
 func init() {
 	register(stream{
 		name: "sealed",
-		rule: "(cbor) random IPLD trees with canonically ordered maps: dagcbor.Encode versus the model's encoder, and decode-then-recompare versus the model's accept on canonical bytes and on single-tweak re-encodings; (sealed) real delegations and invocations sealed with Ed25519, secp256k1, P-256 and RSA keys: the CID of ToSealed / ToSealedWriter / FromSealed / FromSealedReader (generic and typed) against an independent CIDv1(dag-cbor, sha2-256) of the bytes; every data-preserving re-encoding of each sealed token — a wider length prefix at each head, an indefinite-length form of each string/list/map, swapped map entries, an extra element in the outer list — and key-less signature re-encodings (ECDSA s ↦ n−s, a trailing byte after the DER signature), each offered to all six unsealing functions. A token whose values and lengths sit exactly at the CBOR head-size boundaries (23/24, 255/256, 65535/65536, 2^32−1/2^32, and their negative counterparts) under the same re-encodings. Tokens with one field of 4095 … 300000 bytes through every sealing and unsealing API. Non-trivial = re-encoded or mutated inputs. Distinct = distinct protocol lines.",
+		rule: "(cbor) random IPLD trees with canonically ordered maps: dagcbor.Encode versus the model's encoder, and decode-then-recompare versus the model's accept on canonical bytes and on single-tweak re-encodings; (sealed) real delegations and invocations sealed with Ed25519, secp256k1, P-256 and RSA keys: the CID of ToSealed / ToSealedWriter / FromSealed / FromSealedReader (generic and typed) against an independent CIDv1(dag-cbor, sha2-256) of the bytes; every data-preserving re-encoding of each sealed token — a wider length prefix at each head, an indefinite-length form of each string/list/map, swapped map entries, an extra element in the outer list — and key-less signature re-encodings (ECDSA s ↦ n−s, a trailing byte after the DER signature), each offered to all six unsealing functions; the honest bytes followed by a line end, padding, another CBOR item or the token a second time (the sealed form is the whole input). A token whose values and lengths sit exactly at the CBOR head-size boundaries (23/24, 255/256, 65535/65536, 2^32−1/2^32, and their negative counterparts) under the same re-encodings. Tokens with one field of 4095 … 300000 bytes through every sealing and unsealing API. Non-trivial = re-encoded or mutated inputs. Distinct = distinct protocol lines.",
 		run:  runSealedStream,
 		eval: evalSealed,
 		cmp:  cmpSealed,
@@ -538,6 +538,14 @@ func runSealedStream(c *ctx) error {
 				}
 				// identity: the honest bytes themselves
 				emitRe(b, "identity")
+				// the honest bytes FOLLOWED by something: a line end, padding, another CBOR item, the token a second time. The sealed
+				// form is the whole input (its CID is the hash of all of it): anything after the token makes it another input
+				if s == 0 || c.thoro {
+					for name, tail := range map[string][]byte{"lf": {'\n'}, "nul": {0}, "ff": {0xff}, "cbor-null": {0xf6}, "empty-list": {0x80},
+						"blank": {' '}, "self": b, "64-zeros": make([]byte, 64)} {
+						emitRe(append(append([]byte(nil), b...), tail...), "tail-"+name)
+					}
+				}
 			}
 		}
 	}
